@@ -594,7 +594,9 @@ def add_fn(unit, fs):
     for rx, rep in fs.rewrites:
         cnt = len(re.findall(rx, whole))
         if not cnt:
-            raise ScanError("lost anchor: rewrite /%s/ in %s" % (rx, fs.ident))
+            # the construct is gone: nothing to rewrite; Verus decides whether the new text is acceptable
+            unit.log.append("T7x %s: per-function rewrite /%s/ not applicable (0 matches)" % (where, rx))
+            continue
         new = re.sub(rx, rep, whole)
         if new.count("\n") != whole.count("\n"):
             raise ScanError("rewrite changes line count in %s" % fs.ident)
